@@ -129,7 +129,7 @@ theorem foldl_shift (old new : List Int) (off x a : Int) (hx : off ≤ x) (ho : 
       have ho' := ho o List.mem_cons_self
       have : ((o - off).toNat = (x - off).toNat) ↔ o = x := by omega
       by_cases hox : o = x
-      · simp only [this, hox, if_true]
+      · simp only [hox, if_true]
         exact ih ns n (fun o' h' => ho o' (List.mem_cons_of_mem _ h'))
       · simp only [this, hox, if_false]
         exact ih ns a (fun o' h' => ho o' (List.mem_cons_of_mem _ h'))
@@ -198,6 +198,36 @@ theorem shiftFlat_eq_subst' {data old new : List Int} {dmin nmin dmax : Int}
     obtain ⟨o', ho', rfl⟩ := this
     have := hold o' ho'
     simp only
+    omega
+
+/-- `shift_data` is "replace by the lookup table": under the documented guard of the real code (data and
+`new` non-empty, same number of old and new values, every old value between the table offset
+`min (min data) (min new)` and `max data`) and if all values involved lie in a window `[lo, hi]` narrower
+than `2^31` (so the `int32` cast is harmless), the result is `data.map (subst old new)`. -/
+theorem shiftFlat_eq_subst {data old new : List Int} {lo hi : Int}
+    (hdata : data ≠ []) (hnew : new ≠ []) (hlen : old.length = new.length)
+    (hlow : ∀ o ∈ old, ∃ y, (y ∈ data ∨ y ∈ new) ∧ y ≤ o)
+    (hhigh : ∀ o ∈ old, ∃ y ∈ data, o ≤ y)
+    (hwin : ∀ x, x ∈ data ∨ x ∈ new → lo ≤ x ∧ x ≤ hi) (hrange : hi - lo < 2147483648) :
+    shiftFlat data old new = .ok (data.map (subst old new)) := by
+  obtain ⟨dmin, hdmin⟩ := minimum?_isSome hdata
+  obtain ⟨nmin, hnmin⟩ := minimum?_isSome hnew
+  obtain ⟨dmax, hdmax⟩ := maximum?_isSome hdata
+  have hdmin' := minimum?_spec hdmin
+  have hnmin' := minimum?_spec hnmin
+  have hdmax' := maximum?_spec hdmax
+  apply shiftFlat_eq_subst' hdmin hnmin hdmax hlen
+  · intro o ho
+    obtain ⟨y, hy, hyo⟩ := hlow o ho
+    obtain ⟨z, hz, hoz⟩ := hhigh o ho
+    have := hdmax'.2 z hz
+    rcases hy with hy | hy
+    · have := hdmin'.2 y hy; omega
+    · have := hnmin'.2 y hy; omega
+  · intro x hx
+    have h1 := (hwin x hx).2
+    have h2 := (hwin dmin (Or.inl hdmin'.1)).1
+    have h3 := (hwin nmin (Or.inr hnmin'.1)).1
     omega
 
 end MsmVerif
